@@ -63,6 +63,8 @@ type Session struct {
 	FinishOnError bool
 	// Flush makes the persister flush its state and memory after every successful Save (Persister.WithFlush).
 	Flush bool
+	// RetryFinish: a Finish that fails is called once more (a client that retries the save)
+	RetryFinish bool
 	// SharedPe, when set (persisted mode), is used for every request instead of a new persister: one
 	// long-lived flushing persister that serves several sessions, re-pointed with WithSession.
 	SharedPe *persist.Persister
@@ -242,6 +244,9 @@ func (s *Session) Request(input []byte) (r Resp) {
 		return
 	}
 	r.FinishErr = errStr(en.Finish(ctx))
+	if r.FinishErr != "" && s.RetryFinish {
+		r.FinishErr = errStr(en.Finish(ctx))
+	}
 	return
 }
 
